@@ -17,7 +17,7 @@ ASSUMPTIONS = ['a run(until=event) stop is placed on events that succeed, fail o
                'programs in which an exception escapes step() are split with step() only',
                'canonical trace = all recorded observations and processings, minus the stop sentinels, minus action '
                'and step numbers']
-PROBES = ['until_event_failed', 'big_int_clock', 'network_scenario', 'pipeline_scenario', 'stop_at_instant_with_due_normal_event', 'until_event_gains_waiter_after_run_began',
+PROBES = ['until_condition_stop', 'until_event_failed', 'big_int_clock', 'network_scenario', 'pipeline_scenario', 'stop_at_instant_with_due_normal_event', 'until_event_gains_waiter_after_run_began',
           'until_event_already_processed', 'nasty_stop_time', 'illegal_stop_refused', 'step_split', 'until_event_stop']
 
 
@@ -210,6 +210,9 @@ def gen(rng, tier):
             stops.append(('until', rng.choice(cand)))
         elif r < 0.55 and mids:
             stops.append(('until', rng.choice(mids)))
+        elif r < 0.75 and ok_events and rng.random() < 0.25:
+            stops.append(('until_cond', rng.choice(['any', 'all']),
+                          [rng.choice(ok_events) for _ in range(rng.randint(1, 3))], 'drv.c%d' % len(stops)))
         elif r < 0.75 and ok_events:
             stops.append(('until_ev', rng.choice(ok_events)))
         elif r < 0.9:
@@ -221,7 +224,7 @@ def gen(rng, tier):
         if s[0] == 'until':
             plan.append(['until', nums.pop(0)])
         else:
-            plan.append([s[0], s[1]])
+            plan.append(list(s))
     if never and rng.random() < 0.1:
         plan.append(['until_ev', rng.choice(never)])
     plan.append(['run'])
@@ -231,8 +234,13 @@ def gen(rng, tier):
 
 def canon(log):
     out = []
+    drv_steps = set(r[4] for r in log if r[0] == 'P' and isinstance(r[2], str) and r[2].startswith('drv.'))
     for r in log:
         tag = r[0]
+        if tag in ('T', 'P') and isinstance(r[2], str) and r[2].startswith('drv.'):
+            continue                 # a condition the driver built to stop on: not part of the program
+        if tag == 'X' and r[2] in drv_steps:
+            continue                 # ... and its own failure (an operand failed) is reported to the driver only
         if tag == 'T':
             if r[3] == 'until':
                 continue
@@ -313,6 +321,8 @@ def check_split(w, case, ref_log):
                 _, g, now, st, _, lb, out, val, same, was, nsteps = r
                 stops += 1
                 stats['until_event_stop'] = 1
+                if isinstance(lb, str) and lb.startswith('drv.'):
+                    stats['until_condition_stop'] = 1
                 if was:
                     stats['until_event_already_processed'] = 1
                     if nsteps != 0:
